@@ -59,6 +59,7 @@ Definition oracle (m : mode) (x : ostep) : list string :=
    then ["oracle:command-unreachable-with-live-candidates"] else []) ++
   (if core && negb (failed_rolls_back_b x) then ["oracle:failed-command-not-rolled-back"] else []) ++
   (if core && negb (start_failure_inert_b x) then ["oracle:failed-start-not-inert"] else []) ++
+  (if core && negb (rejected_start_inert_b x) then ["oracle:rejected-start-changed-an-in-flight-command"] else []) ++
   (if core && negb (cleanup_restores_b x) then ["oracle:cleanup-left-stale-marking"] else []) ++
   (if core && negb (one_cmd_per_node_b x) then ["oracle:node-in-two-commands"] else []).
 
